@@ -363,6 +363,24 @@ def carriers():
             got = r["after"]["a.lua"][0].decode("utf-8", "replace")
             if r["rc"] != 0 or got != want:
                 return f"option written as {how} ({toml if how == 'toml' else flags if how == 'flag' else ec!r}): got {got!r}, expected {want!r} (rc={r['rc']})", clireplay.describe(r)
+    # .editorconfig values are matched case-insensitively, every property alike
+    for ec, src, want in ((("sort_requires = True", "sort_requires = TRUE"), 'local b = require("b")\nlocal a = require("a")\n', 'local a = require("a")\nlocal b = require("b")\n'),
+                          (("quote_type = Single",), QSRC, "local a = 'x'\nlocal b = \"it's\"\nlocal c = 'say \"hi\"'\n"),
+                          (("indent_style = Space\nindent_size = 2",), "do\nlocal x = 1\nend\n", "do\n  local x = 1\nend\n"),
+                          (("end_of_line = CrLf",), "local x = 1\n", "local x = 1\r\n"),
+                          (("call_parentheses = None",), 'f("a")\n', 'f "a"\n'),
+                          (("collapse_simple_statement = Always",), "if x then\n\treturn\nend\n", "if x then return end\n")):
+        for line in ec:
+            r = clireplay.run_cli(binp, {".editorconfig": "root = true\n[*.lua]\n" + line + "\n", "a.lua": src}, ["a.lua"])
+            got = r["after"]["a.lua"][0].decode("utf-8", "replace")
+            if r["rc"] != 0 or got != want:
+                return f".editorconfig `{line}` (value not in lower case): got {got!r}, expected {want!r}", clireplay.describe(r)
+    # the deprecated no_call_parentheses next to an explicit call_parentheses in the same file: the library's reading of that Config
+    both = 'foo("bar")\nfoo({ 1 })\nfoo "baz"\nfoo { 2 }\n'
+    r = clireplay.run_cli(binp, {"stylua.toml": 'no_call_parentheses = true\ncall_parentheses = "Input"\n', "a.lua": both}, ["a.lua"])
+    got = r["after"]["a.lua"][0].decode("utf-8", "replace")
+    if r["rc"] != 0 or got != both:
+        return f"stylua.toml with no_call_parentheses = true and call_parentheses = \"Input\": got {got!r}, expected the calls as written", clireplay.describe(r)
     for bad in MALFORMED:
         r = clireplay.run_cli(binp, {"stylua.toml": bad + "\n", "a.lua": "local   x = 1\n"}, ["a.lua"])
         if r["rc"] != 2 or clireplay.changed(r, "a.lua", True):
@@ -377,10 +395,12 @@ def run(ses, rep):
     rep.outside += ["serde/toml decoding and deny_unknown_fields, clap's string->enum parsing, ec4rs file discovery: 'byte-identical output across "
                     "carriers' is claimed as 'the three carriers produce the same Config given the decoded enum values'"]
     flagged = []
-    for fs in ("default", "full"):
-        flagged += overrides(ses, rep, fs)
-    flagged += editorconfig(ses, rep)
-    flagged += strictness(ses, rep)
+    for kern, a_ in ((overrides, ("default",)), (overrides, ("full",)), (editorconfig, ()), (strictness, ())):
+        try:
+            flagged += kern(ses, rep, *a_)
+        except Inconclusive as e:
+            # a carrier rewritten in a way the kernel does not encode (e.g. a property parsed without its choice type): the carrier battery decides
+            flagged.append((f"{kern.__name__}/{'/'.join(a_) or 'all'}/encodable", f"{kern.__name__} kernel not applicable to the current implementation ({str(e)[:120]})", "engine", {}))
     # the mapping only matters if every configuration route applies it: override dominance over src/cli/config.rs
     from .. import cfgorigin
     routes = cfgorigin.analyse(ses, rep)
